@@ -59,6 +59,7 @@ type dexCase struct {
 	lastNRes  *lib.CertificateResult // results certified with the previous nested block
 	nPoolAt   map[uint64]*big.Int    // nested height -> nested liquidity pool after that block
 	pending   []*pendingCert
+	lastRC    uint64 // root height the previous nested block was built on
 	orderTxs  int
 	failedTxs int
 }
@@ -318,18 +319,25 @@ func runDexCase(t *rapid.T, rec *ev.Rec, ec *ev.Case, mode dexMode) (nontrivial 
 				return
 			}
 			h := tc.Nested.Height()
-			prevHash := lastBlockHash(t, tc.Nested)
+			prevHash := lastBlockHash(t, tc, tc.Nested)
 			pre, err := tc.Nested.Raw()
 			if err != nil {
 				t.Fatalf("scan: %v", err)
 			}
-			if lb := pre.Locked[dexRoot]; ev.Open(kfLiveness) && !batchEmpty(lb) && h-lb.LockedHeight >= lib.LivenessFallbackBlocks &&
-				(h-lb.LockedHeight)%lib.TriggerModuloBlocks == 0 && answeredRootBatchHasOps(t, tc) {
-				// open finding (see above): this block would order the harmful fallback; the history ends here
-				rec.Exclude(kfLiveness)
-				ec.Class("history-cut-before-known-finding")
-				stop = true
-				return
+			if lb := pre.Locked[dexRoot]; !batchEmpty(lb) && h-lb.LockedHeight >= lib.LivenessFallbackBlocks && (h-lb.LockedHeight)%lib.TriggerModuloBlocks == 0 {
+				// this block would order the liveness fallback; open findings end the history here (counted)
+				cut := ""
+				if ev.Open(kfLiveness) && answeredRootBatchHasOps(t, tc) {
+					cut = kfLiveness
+				} else if rr, _ := tc.Root.Raw(); ev.Open(kfWipe) && rr != nil && batchEmpty(rr.Locked[dexNested]) {
+					cut = kfWipe // the root has never locked a batch: the fallback would mirror an empty points ledger
+				}
+				if cut != "" {
+					rec.Exclude(cut)
+					ec.Class("history-cut-before-known-finding")
+					stop = true
+					return
+				}
 			}
 			rpre, _ := tc.Root.Raw()
 			var txs []*dexTx
@@ -345,7 +353,11 @@ func runDexCase(t *rapid.T, rec *ev.Rec, ec *ev.Case, mode dexMode) (nontrivial 
 				}
 				ds = append(ds, fmt.Sprintf("flood of %d orders", len(txs)))
 			}
-			rc := tc.Root.Height() - uint64(rapid.IntRange(0, 1).Draw(t, "rcLag"))
+			lag := rapid.IntRange(0, 1).Draw(t, "rcLag")
+			if mode.liveness && ev.Open(kfLateCert) {
+				lag = 0 // open finding: a fallback ordered on a stale root height refunds what the root has already executed
+			}
+			rc := tc.Root.Height() - uint64(lag)
 			if rc == 0 {
 				rc = 1
 			}
@@ -369,7 +381,7 @@ func runDexCase(t *rapid.T, rec *ev.Rec, ec *ev.Case, mode dexMode) (nontrivial 
 			var in *dexInput
 			if dc.lastNRes != nil && dc.lastNRes.RootDexBatch != nil {
 				if dc.lastNRes.RootDexBatch.LivenessFallback {
-					in = &dexInput{remote: dc.lastNRes.RootDexBatch, fallback: true, prevBlockHash: prevHash}
+					in = &dexInput{remote: dc.lastNRes.RootDexBatch, fallback: true, prevBlockHash: prevHash, counterLedger: rootLedgerAt(t, tc, dc.lastRC)}
 					ec.Class("liveness-fallback-executed")
 					ec.Desc("(liveness-fallback-executed)")
 				} else {
@@ -383,13 +395,26 @@ func runDexCase(t *rapid.T, rec *ev.Rec, ec *ev.Case, mode dexMode) (nontrivial 
 			if err := dc.afterBlock(nestS, h, pre, post, txs, failed, in, dexEvents(no.Results.Events, lib.EventStageBeginBlock)); err != nil {
 				t.Fatalf("%v\nhistory: %s", err, ec.Descriptor())
 			}
-			dc.lastNRes = no.QC.Results
+			dc.lastNRes, dc.lastRC = no.QC.Results, no.RCBuildHeight
 			dc.nPoolAt[h] = u(post.PoolAmount(dexRoot + fsm.LiquidityPoolAddend))
-			if no.CertTx != nil {
-				dc.pending = append(dc.pending, &pendingCert{tx: no.CertTx, qc: no.CertQC})
-			}
 			if no.Liveness {
 				ec.Class("liveness-fallback-ordered")
+			}
+			if no.Liveness && ev.Open(kfLateCert) {
+				// open finding: every certificate that still carries the batch the fallback is about to refund (the ordering
+				// certificate included) would make the root execute it; they are lost by construction
+				var keep []*pendingCert
+				for _, p := range dc.pending {
+					if p.qc.Results.DexBatch != nil {
+						rec.Exclude(kfLateCert)
+						continue
+					}
+					keep = append(keep, p)
+				}
+				dc.pending = keep
+				rec.Exclude(kfLateCert)
+			} else if no.CertTx != nil {
+				dc.pending = append(dc.pending, &pendingCert{tx: no.CertTx, qc: no.CertQC})
 			}
 		}
 		rootStep := func() {
@@ -397,7 +422,7 @@ func runDexCase(t *rapid.T, rec *ev.Rec, ec *ev.Case, mode dexMode) (nontrivial 
 				return
 			}
 			h := tc.Root.Height()
-			prevHash := lastBlockHash(t, tc.Root)
+			prevHash := lastBlockHash(t, tc, tc.Root)
 			pre, err := tc.Root.Raw()
 			if err != nil {
 				t.Fatalf("scan: %v", err)
@@ -425,6 +450,9 @@ func runDexCase(t *rapid.T, rec *ev.Rec, ec *ev.Case, mode dexMode) (nontrivial 
 			withBatch := false
 			for _, p := range dc.pending {
 				fate := rapid.IntRange(0, 9).Draw(t, "certFate")
+				if mode.liveness && ev.Open(kfWipe) && step < silentFrom {
+					fate = 0 // open finding: let the root lock its first batch before it goes silent
+				}
 				if silent {
 					fate = 9
 					if mode.liveness && p.age > 3 {
@@ -451,7 +479,7 @@ func runDexCase(t *rapid.T, rec *ev.Rec, ec *ev.Case, mode dexMode) (nontrivial 
 				certRaws = append(certRaws, p.tx)
 			}
 			all := append(append(append([][]byte{}, raws[:certAt]...), certRaws...), raws[certAt:]...)
-			out, err := tc.Root.Block(chainsim.BlockSpec{Txs: all})
+			out, err := tc.RootBlock(chainsim.BlockSpec{Txs: all})
 			if err != nil {
 				t.Fatalf("root block %d: %v", h, err)
 			}
@@ -514,7 +542,11 @@ func runDexCase(t *rapid.T, rec *ev.Rec, ec *ev.Case, mode dexMode) (nontrivial 
 	return st.rotations[dexNested]+st.rotations[dexRoot] >= 2 && st.swapsOK > 0 && st.swapsFailed > 0 && st.withdrawals > 0, st
 }
 
-const kfLiveness = "KF-C20-liveness-reexecution"
+const (
+	kfLiveness = "KF-C20-liveness-reexecution"
+	kfLateCert = "KF-C20-liveness-refund-and-execute"
+	kfWipe     = "KF-C20-liveness-points-wiped"
+)
 
 // answeredRootBatchHasOps: the root's locked batch carries operations and the nested chain's locked batch is the answer to it.
 func answeredRootBatchHasOps(t *rapid.T, tc *chainsim.TwoChain) bool {
@@ -537,13 +569,11 @@ func answeredRootBatchHasOps(t *rapid.T, tc *chainsim.TwoChain) bool {
 	return batchEmpty(nb) || string(nb.ReceiptHash) == string(batchHash(full))
 }
 
-func lastBlockHash(t *rapid.T, c *chainsim.Chain) []byte {
-	if c.Height() <= 1 {
-		return nil
-	}
-	b, e := c.FSM.LoadBlock(c.Height() - 1)
+func lastBlockHash(t *rapid.T, tc *chainsim.TwoChain, c *chainsim.Chain) []byte {
+	tc.Use(c)
+	b, e := c.FSM.LoadBlock(c.Height() - 1) // what HandleDexBatchOrders loads (height 0 and 1 both mean block 1)
 	if e != nil || b == nil || b.BlockHeader == nil {
-		t.Fatalf("load block %d: %v", c.Height()-1, e)
+		return nil
 	}
 	return b.BlockHeader.Hash
 }
@@ -556,6 +586,21 @@ func reserveName(v uint64) string {
 		return "near-2^64"
 	}
 	return fmt.Sprint(v)
+}
+
+func rootLedgerAt(t *rapid.T, tc *chainsim.TwoChain, rootHeight uint64) *fsm.Pool {
+	sm, e := tc.Root.FSM.TimeMachine(rootHeight)
+	if e != nil {
+		t.Fatalf("time machine: %v", e)
+	}
+	if sm != tc.Root.FSM {
+		defer sm.Discard()
+	}
+	p, e := sm.GetPool(dexNested + fsm.LiquidityPoolAddend)
+	if e != nil {
+		t.Fatalf("root pool: %v", e)
+	}
+	return p
 }
 
 func rootPoolAt(tc *chainsim.TwoChain, rootHeight uint64) (*big.Int, error) {
